@@ -11,7 +11,7 @@
 //!   lfqgrid refRt refFile files d0 d1 d2 scoring sum sa(f64) [n (rt isotope file intensity)…]
 //!                                             -> [c cell(f64)…] [d dot…] [d angle…] (0 | 1 peakRt score angle [files area…])
 //!   lfq     [t threads…] binSize W            -> R for each pool size, in order   (binSize 0 = the map as built)
-//!   lfq2    kind [n perm…] binSize W_A W_B    -> R_A R_B   (single-thread pool; kind 0 = noise, 1 = file permutation)
+//!   lfq2    kind [n perm…] binSize W_A W_B    -> R_A R_B   (single-thread pool; kind 0 = noise, 1 = file permutation, 2 = spectrum order)
 use super::Info;
 use crate::proto::{Case, Out, Rng, Tier, Toks};
 use sage_core::database::{IndexedDatabase, PeptideIx};
@@ -36,7 +36,7 @@ pub const INFO: Info = Info {
            directed: peaks exactly on / one ulp outside massLo/massHi, scans exactly on / one ulp outside rt +- RT_TOL, \
            feature rt < 2*RT_TOL (decoy rt clamps to 0), q exactly 0.01, empty charge range, empty inputs, wide ppm (window > 0.1 Da); \
            streams: pools {1,2,4,16}; file B = 2 x file A; lfq2 noise (B = A + irrelevant peaks/spectra/PSMs) and file permutation; \
-           lfqmap (feature map as built, incl. >16384 ranges in thorough) and lfqgrid (Grid::add_entry/summarize/integrate on \
+           acos-cliff stream (exact theoretical envelopes with 2^30 dynamic range in one RT bin, one intensity tuned by bisection on the real Grid until the similarity sits within an ulp of 1.0; emitted as lfq2 kind 2 = same spectra in another order, and lfq with repeated pools); lfqmap (feature map as built, incl. >16384 ranges in thorough) and lfqgrid (Grid::add_entry/summarize/integrate on \
            random and boundary contributions). non-trivial = at least one in-window peak and one irrelevant peak or PSM",
     serial: false,
 };
@@ -734,6 +734,24 @@ fn directed(emit: &mut dyn FnMut(Case)) {
                 (rt0 - 2.0 * RT_TOL).max(0.0),
                 (rt0 - 2.0 * RT_TOL).max(0.0) + RT_TOL,
             ];
+            // scans that sit EXACTLY on the two edges of the lookup's window test as the code evaluates it in f32:
+            // `range.rt <= fl(rt + RT_TOL)` and `range.rt >= fl(rt - RT_TOL)` hold with equality (for the target range at
+            // rt0 and for the decoy range at max(rt0 - 2*RT_TOL, 0)); a `<` / `>` there loses these scans
+            let mut scan_rts: Vec<f32> = scan_rts.to_vec();
+            for centre in [rt0, (rt0 - 2.0 * RT_TOL).max(0.0)] {
+                for (guess, plus) in [(centre - RT_TOL, true), (centre + RT_TOL, false)] {
+                    if guess <= 0.0 {
+                        continue;
+                    }
+                    for d in -8i32..=8 {
+                        let x = f32::from_bits((guess.to_bits() as i64 + d as i64) as u32);
+                        let hit = if plus { x + RT_TOL == centre } else { x - RT_TOL == centre };
+                        if hit {
+                            scan_rts.push(x);
+                        }
+                    }
+                }
+            }
             for (k, &t) in scan_rts.iter().enumerate() {
                 if t < 0.0 {
                     continue;
@@ -775,6 +793,42 @@ fn directed(emit: &mut dyn FnMut(Case)) {
             }
         }
     }
+    // near-isobaric neighbours: two confident peptides whose m/z windows overlap (0.002 apart at charge 2), same rt; a peak in
+    // BOTH windows. `binary_search_slice` returns one element below the lower search bound, so a too-small search margin
+    // (mass - 0.001 instead of mass - 0.1) still finds the nearer range and silently loses the farther one.
+    for &(ppm, combine) in &[(5.0f32, true), (10.0, false)] {
+        let calc = [1500.0f32, 1500.004];
+        let feats: Vec<Ft> = (0..2)
+            .map(|p| Ft { pep: p as u32, label: 1, q: 0.0, rt: 0.4, calcmass: calc[p], charge: 2, file: 0, ims: 1.0 })
+            .collect();
+        let mut spectra = Vec::new();
+        for k in 0..9 {
+            let t = 0.4 + 0.0006 * (k as f32 - 4.0);
+            let mut peaks = Vec::new();
+            for iso in 0..3usize {
+                let w = [1.0f32, 0.85, 0.45][iso] * (5.0 - (k as f32 - 4.0).abs());
+                peaks.push(((calc[0] + iso as f32 * NEUTRON) / 2.0 + 0.003, 2.0e4 * w, 1.0));
+            }
+            spectra.push(Sp { file: 0, t, peaks });
+        }
+        let w = World {
+            with_mob: false,
+            combine,
+            scoring: 3,
+            sum: true,
+            sa: 0.3,
+            ppm,
+            mob_pct: 1.0,
+            z_lo: 2,
+            z_hi: 2,
+            peptides: vec![b"PEPTIDEKAA".to_vec(), b"PEPTLDEKAA".to_vec()],
+            feats,
+            aligns: vec![(1.0, 1.0, 0.0)],
+            spectra,
+        };
+        emit(Case::new(req_lfq(&[1], 0, &w)).tag("directed-isobaric-neighbours"));
+        emit(Case::new(req_lfq(&[1], 3, &w)).tag("directed-isobaric-neighbours").tag("rebinned"));
+    }
     // degenerate worlds
     let empty = World {
         with_mob: false,
@@ -814,6 +868,161 @@ fn directed(emit: &mut dyn FnMut(Case)) {
     let mut e6 = e5.clone();
     e6.spectra = vec![Sp { file: 0, t: 0.9, peaks: vec![(500.0, 1.0e4, 1.0)] }];
     emit(Case::new(req_lfq(&[1], 0, &e6)).tag("bad-reference-file-unused").nontrivial(false));
+}
+
+// ---------------------------------------------------------------------------------------------
+// acos cliff: an observed envelope that is (almost) exactly the theoretical one makes
+// `similarity = dot / (ss.sqrt() * ss_dist)` land within a few ulp of 1.0; above 1.0 `acos` is NaN and the
+// column cannot be chosen. The search below tunes one envelope so that the columns sit ON the cliff and
+// the order of the f64 additions into a grid cell decides which columns survive.
+
+/// scans: (intensities of isotopes 0..3), all at retention time `rt`
+fn cliff_pattern(ref_rt: f32, rt: f32, dist: [f32; 3], scans: &[[f32; 3]], order: &[usize]) -> Vec<bool> {
+    let entry = PrecursorRange {
+        rt: ref_rt,
+        mass_lo: 0.0,
+        mass_hi: 0.0,
+        mobility_lo: 0.0,
+        mobility_hi: 0.0,
+        charge: 2,
+        isotope: 0,
+        peptide: PeptideIx(0),
+        file_id: 0,
+        decoy: false,
+    };
+    let mut g = Grid::new(&entry, 0.0050, dist, 1, 100);
+    for &k in order {
+        for iso in 0..3 {
+            g.add_entry(rt, iso, 0, scans[k][iso]);
+        }
+    }
+    let tr = g.summarize_traces();
+    (0..100).map(|c| tr.spectral_angle.data[c].is_nan() && tr.dot_product.data[c] > 0.0).collect()
+}
+
+fn cliff_pattern_signal(ref_rt: f32, rt: f32, dist: [f32; 3], scans: &[[f32; 3]], order: &[usize]) -> Vec<bool> {
+    let entry = PrecursorRange {
+        rt: ref_rt, mass_lo: 0.0, mass_hi: 0.0, mobility_lo: 0.0, mobility_hi: 0.0, charge: 2, isotope: 0,
+        peptide: PeptideIx(0), file_id: 0, decoy: false,
+    };
+    let mut g = Grid::new(&entry, 0.0050, dist, 1, 100);
+    for &k in order {
+        for iso in 0..3 {
+            g.add_entry(rt, iso, 0, scans[k][iso]);
+        }
+    }
+    let tr = g.summarize_traces();
+    (0..100).map(|c| tr.dot_product.data[c] > 0.0).collect()
+}
+
+fn nan_count(p: &[bool]) -> usize {
+    p.iter().filter(|b| **b).count()
+}
+
+/// a one-peptide, one-file world tuned onto the cliff; `None` if the search does not converge for this sequence
+fn cliff_world(rng: &mut Rng, want_presence: bool) -> Option<(World, World)> {
+    let len = 7 + rng.below(10);
+    let seq: Vec<u8> = (0..len).map(|_| *rng.pick(AAS)).collect();
+    let d = iso_dist(&seq);
+    let ref_rt = 0.3f32 + 0.4 * rng.unit() as f32;
+    let rt = ref_rt + 0.0007;
+    let big = (1u64 << 30) as f32;
+    let mid = (1u64 << 15) as f32;
+    let mut scans: Vec<[f32; 3]> = vec![[d[0] * big, d[1] * big, d[2] * big], [d[0] * mid, d[1] * mid, d[2] * mid]];
+    let n_small = 3 + rng.below(6);
+    for _ in 0..n_small {
+        let g = 1.0 + 7.0 * rng.unit() as f32;
+        scans.push([d[0] * g, d[1] * g, d[2] * g]);
+    }
+    let ident: Vec<usize> = (0..scans.len()).collect();
+    let base = cliff_pattern(ref_rt, rt, d, &scans, &ident);
+    if nan_count(&base) == 0 {
+        return None; // ss_dist rounded up for this peptide: the exact envelope is on the safe side
+    }
+    // coarse knob: isotope 1 of the big scan, as a multiplier in f32 steps
+    let (mut lo, mut hi) = (scans[0][1].to_bits(), (scans[0][1] * 1.01).to_bits());
+    {
+        let mut s = scans.clone();
+        s[0][1] = f32::from_bits(hi);
+        if nan_count(&cliff_pattern(ref_rt, rt, d, &s, &ident)) != 0 {
+            return None;
+        }
+    }
+    while hi - lo > 1 {
+        let m = lo + (hi - lo) / 2;
+        let mut s = scans.clone();
+        s[0][1] = f32::from_bits(m);
+        if nan_count(&cliff_pattern(ref_rt, rt, d, &s, &ident)) > 0 { lo = m } else { hi = m }
+    }
+    scans[0][1] = f32::from_bits(lo); // still NaN somewhere
+    // medium knob: isotope 1 of the 2^15 scan
+    let (mut lo2, mut hi2) = (scans[1][1].to_bits(), (scans[1][1] * 2.0).to_bits());
+    {
+        let mut s = scans.clone();
+        s[1][1] = f32::from_bits(hi2);
+        if nan_count(&cliff_pattern(ref_rt, rt, d, &s, &ident)) != 0 {
+            return None;
+        }
+    }
+    while hi2 - lo2 > 1 {
+        let m = lo2 + (hi2 - lo2) / 2;
+        let mut s = scans.clone();
+        s[1][1] = f32::from_bits(m);
+        if nan_count(&cliff_pattern(ref_rt, rt, d, &s, &ident)) > 0 { lo2 = m } else { hi2 = m }
+    }
+    // around the boundary: look for a setting where the ORDER of the scans changes the NaN pattern
+    let mut orders: Vec<Vec<usize>> = vec![ident.clone(), ident.iter().rev().copied().collect()];
+    for _ in 0..6 {
+        let mut o = ident.clone();
+        rng.shuffle(&mut o);
+        orders.push(o);
+    }
+    for k in 0..120u32 {
+        let bits = if k % 2 == 0 { lo2.saturating_sub(k / 2) } else { hi2 + k / 2 };
+        let mut s = scans.clone();
+        s[1][1] = f32::from_bits(bits);
+        let pats: Vec<Vec<bool>> = orders.iter().map(|o| cliff_pattern(ref_rt, rt, d, &s, o)).collect();
+        // presence: in one order every column that carries signal is NaN, in the other some column survives
+        let sig = cliff_pattern_signal(ref_rt, rt, d, &s, &orders[0]);
+        let dead = |p: &Vec<bool>| (0..100).all(|c| !sig[c] || p[c]);
+        let hit = if want_presence {
+            (0..pats.len()).find(|&j| dead(&pats[j])).and_then(|a| (0..pats.len()).find(|&b| !dead(&pats[b])).map(|b| (b, a)))
+        } else {
+            (1..pats.len()).find(|&j| pats[j] != pats[0]).map(|j| (0, j))
+        };
+        if let Some((i0, j)) = hit {
+            let calc = 900.0 + 1500.0 * rng.unit() as f32;
+            let mk = |order: &[usize]| -> Vec<Sp> {
+                order
+                    .iter()
+                    .map(|&i| Sp {
+                        file: 0,
+                        t: rt,
+                        peaks: (0..3).map(|iso| ((calc + iso as f32 * NEUTRON) / 2.0, s[i][iso], 1.0)).collect(),
+                    })
+                    .collect()
+            };
+            let w = World {
+                with_mob: false,
+                combine: true,
+                scoring: 3,
+                sum: true,
+                sa: 0.7,
+                ppm: 5.0,
+                mob_pct: 1.0,
+                z_lo: 2,
+                z_hi: 2,
+                peptides: vec![seq.clone()],
+                feats: vec![Ft { pep: 0, label: 1, q: 0.0, rt: ref_rt, calcmass: calc, charge: 2, file: 0, ims: 1.0 }],
+                aligns: vec![(1.0, 1.0, 0.0)],
+                spectra: mk(&orders[i0]),
+            };
+            let mut w2 = w.clone();
+            w2.spectra = mk(&orders[j]);
+            return Some((w, w2));
+        }
+    }
+    None
 }
 
 fn gen_grid(rng: &mut Rng, n: usize, emit: &mut dyn FnMut(Case)) {
@@ -957,5 +1166,15 @@ pub fn gen(rng: &mut Rng, tier: Tier, emit: &mut dyn FnMut(Case)) {
         }
         let b = permute_files(&a, &perm);
         emit(Case::new(req_lfq2(1, &perm, pick_bin(rng), &a, &b)).tag("file-permutation").nontrivial(!winners(&a).is_empty()));
+    }
+
+    // acos cliff: envelopes tuned so that `similarity` sits within an ulp of 1.0 and the order of the f64 additions into a
+    // grid cell (2^30 dynamic range inside one RT bin) decides which columns get a NaN spectral angle
+    let tries = if quick { 300 } else { 5000 };
+    for k in 0..tries {
+        if let Some((w, w2)) = cliff_world(rng, k % 2 == 1) {
+            emit(Case::new(req_lfq2(2, &[], 0, &w, &w2)).tag("acos-cliff").tag("spectrum-order"));
+            emit(Case::new(req_lfq(&[1, 16, 16, 16, 16, 4, 4, 2, 2], 0, &w)).tag("acos-cliff").tag("pools-repeated"));
+        }
     }
 }
